@@ -155,6 +155,19 @@ func (p *Path) f2iCutNew(x *Term, bits uint8, signed bool) *Term {
 	inRange := st.Lt(mulc(xw, e.hi.Num()), st.Wide(new(big.Int).Mul(limit, e.hi.Denom())))
 	c := st.Or(st.Not(inRange), st.And(up, lowc))
 	p.assertPC(c)
+	// model preference (never part of the claim): counterexamples and witnesses are first sought
+	// where the product is well inside an integer interval, so that they do not hinge on the
+	// enclosure's slack and replay natively
+	mid := new(big.Rat).Add(e.lo, e.hi)
+	mid.Quo(mid, big.NewRat(2, 1))
+	k := big.NewInt(1024)
+	xm := mulc(xw, mid.Num())
+	rd := mulc(rw, mid.Denom())
+	rd1 := mulc(rp1, mid.Denom())
+	wsub := func(a, b *Term) *Term { return st.mk(&Term{op: OSub, kind: KWide, a: []*Term{a, b}}) }
+	p.prefs = append(p.prefs,
+		st.Le(st.Wide(mid.Denom()), mulc(wsub(xm, rd), k)),
+		st.Le(st.Wide(mid.Denom()), mulc(wsub(rd1, xm), k)))
 	p.fpCuts++
 	return r
 }
